@@ -35,12 +35,15 @@ def derivative(poly: PolyLike, *diffvars: Union[ndpoly, str, int]) -> ndpoly:
 
     """
     poly = poly_ref = numpoly.aspolynomial(poly)
+    # positions refer to the indeterminants of the input, also after an
+    # earlier step has brought the names into sorted order.
+    names_ref = poly.names
 
     for diffvar in diffvars:
         if isinstance(diffvar, str):
             idx = poly.names.index(diffvar)
         elif isinstance(diffvar, int):
-            idx = diffvar
+            idx = poly.names.index(names_ref[diffvar])
         else:
             diffvar = numpoly.aspolynomial(diffvar)
             exponents, _ = numpoly.remove_redundant_coefficients(
